@@ -1159,7 +1159,7 @@ func (c *ChannelWriter) mapDBAndCollectionName(db, collection string) (string, s
 		}
 		if sourceDB == db && (sourceCollection == "*" || collection == "") {
 			returnDB, _ = util.GetCollectionNameFromFull(target)
-			return false
+			// keep looking: a collection-level entry takes precedence over a whole-database one
 		}
 		return true
 	})
